@@ -254,7 +254,7 @@ def gen_cond(rng, names, opener=True):
     if opener and r < 0.3:
         return [rng.choice(['ifdef', 'ifndef']), rng.choice(pool)]
     if r < 0.45:
-        return ['bare', rng.choice(pool + ['0', '1', '2-2', '3*0+1'])]
+        return ['bare', rng.choice(pool + ['0', '1', '2-2', '3*0+1', '1-3', '-1', '0-2+2'])]
     lhs = rng.choice(pool + ['5', '10', '9'])
     op = rng.choice(list(OPS))
     rhs = rng.choice(pool + ['0', '1', '5', '9', '10', '100', '$0A', '%1010', '2+3', 'abc', '"abc"', "'abc'"])
@@ -289,7 +289,7 @@ class Gen:
                 nm = rng.choice(NAMES)
                 self.names.append(nm)
                 later = NAMES[NAMES.index(nm) + 1:]     # values may only mention later names: no cycles in this tie
-                out.append(['define', nm, rng.choice(['', '0', '1', '5', '10', 'abc', '2*3'] + ([rng.choice(later)] if later else []))])
+                out.append(['define', nm, rng.choice(['', '0', '1', '5', '10', 'abc', '2*3', '-1', '1-3', '2  *  3', '7   - 2', '4 +\t1'] + ([rng.choice(later)] if later else []))])
             elif r < 0.62:
                 out.append(['mute'])
             elif r < 0.69:
